@@ -1,5 +1,5 @@
 """Query helpers over normalised THIR trees: contexts, guards, arms."""
-from facts import walk, walk_with_path, peel, children, strip_ref, variant_of, pat_binds, call_is, lit
+from facts import walk, walk_with_path, peel, unblock, children, strip_ref, variant_of, pat_binds, call_is, lit
 from show import show
 
 
@@ -310,6 +310,17 @@ def delegates(f, target="Object::find", via=None):
                 if not ok:
                     return False, "receiver is not the %s payload of self: %s" % (via, show(l))
             nfind += 1
+        elif via is not None and call_is(l, "::and_then") and len(l["args"]) == 2 and peel(l["args"][1]).get("k") == "Closure" \
+                and call_is(peel(l["args"][0]), "::as_" + via.lower()) and var_id(peel(l["args"][0])["args"][0]) == sid and getattr(f, "facts", None) is not None:
+            # `self.as_object().and_then(|o| target(o, key))`: the payload when self is a `via`, None otherwise
+            clo = f.facts.fns.get(peel(l["args"][1])["def"])
+            cps = [strip_ref(p["pat"]) for p in clo.thir["params"] if p.get("pat") is not None] if clo is not None and clo.thir is not None else []
+            cb = unblock(clo.body) if cps else {}
+            if len(cps) == 1 and cps[0].get("k") == "Bind" and call_is(cb, target) and len(cb["args"]) == 2 and var_id(cb["args"][0]) == cps[0]["id"] and var_id(cb["args"][1]) == kid:
+                nfind += 1
+                nnone += 1
+            else:
+                return False, "other result: " + show(l)[:80]
         elif via is not None and l.get("k") == "Adt" and l["adt"].endswith("Option") and l["variant"] == "None":
             # must not be reachable when self matched `via`
             for e in context(path, leaf):
@@ -323,6 +334,39 @@ def delegates(f, target="Object::find", via=None):
     if nfind != 1 or (via is not None and nnone != 1) or (via is None and nnone):
         return False, "%d delegating results, %d None results" % (nfind, nnone)
     return True, "%d results" % len(ls)
+
+
+def option_cases(e, F):
+    """An Option-consuming expression as its two cases: -> (scrutinee, id bound to the payload, value when Some, value when None), for
+    `X.map(|v| S).unwrap_or(D)`, `X.map_or(D, |v| S)`, `match X { Some(v) => S, None => D }` and `if let Some(v) = X { S } else { D }`; else None"""
+    e = unblock(e)
+
+    def clo(n):
+        n = peel(n)
+        if n.get("k") != "Closure":
+            return None
+        c = F.fns.get(n["def"])
+        ps = [strip_ref(p["pat"]) for p in c.thir["params"] if p.get("pat") is not None] if c is not None and c.thir is not None else []
+        return (ps[0]["id"], c.body) if len(ps) == 1 and ps[0].get("k") == "Bind" else None
+    if call_is(e, "::unwrap_or") and len(e["args"]) == 2 and call_is(peel(e["args"][0]), "::map") and len(peel(e["args"][0])["args"]) == 2:
+        m = peel(e["args"][0])
+        c = clo(m["args"][1])
+        if c:
+            return m["args"][0], c[0], c[1], e["args"][1]
+    if call_is(e, "::map_or") and len(e["args"]) == 3:
+        c = clo(e["args"][2])
+        if c:
+            return e["args"][0], c[0], c[1], e["args"][1]
+    sc, brs = branches(e)
+    if sc is not None and len(brs) == 2:
+        some = [(p, x) for p, x in brs if p is not None and variant_of(p) == ("Option", "Some")]
+        none = [(p, x) for p, x in brs if p is None or variant_of(p) == ("Option", "None") or strip_ref(p).get("k") == "Wild"]
+        if len(some) == 1 and len(none) == 1 and none[0][1] is not None:
+            from facts import subpat
+            inner = strip_ref(subpat(some[0][0], 0))
+            if inner is not None and inner.get("k") == "Bind":
+                return sc, inner["id"], some[0][1], none[0][1]
+    return None
 
 
 def loop_over(loop):
